@@ -7,10 +7,10 @@ MAX_REPLAYS = 16
 def configs(tier, seed):
     cfgs = []
     arcs = [(2, 1), (2, 2), (3, 1), (3, 2), (3, 3), (3, 4), (4, 1)] if tier == "quick" else \
-           [(2, 1), (2, 3), (3, 1), (3, 2), (3, 3), (3, 4), (4, 1), (4, 2), (4, 3), (4, 5)]
+           [(2, 1), (2, 3), (3, 1), (3, 2), (3, 3), (3, 4), (4, 1), (4, 2), (4, 3), (4, 4)]
     for n, k in arcs:
         for branch in ("pre", "fn"):
-            if tier == "quick" and n == 4 and branch == "fn":
+            if n == 4 and branch == "fn" and (tier == "quick" or k >= 2):
                 continue
             cfgs.append(dict(kind="arcs", n=n, k=k, branch=branch, weight=13 ** n * k, wstride=13 if n <= 3 else 499))
     # samples that stand for permuted / shifted rows of a larger pre-computed matrix (Node.idx != position)
@@ -19,7 +19,7 @@ def configs(tier, seed):
             cfgs.append(dict(kind="arcs", n=n, k=k, branch=branch, idx=rows, weight=13 ** n * k, wstride=13))
     # histories of two calls on the same graph (create, destroy, create)
     hist = [(2, 1, 1), (3, 2, 1), (3, 1, 2), (3, 2, 2)] if tier == "quick" else \
-           [(2, 1, 1), (3, 2, 1), (3, 1, 2), (3, 2, 2), (3, 3, 1), (4, 2, 1), (4, 1, 2)]
+           [(2, 1, 1), (3, 2, 1), (3, 1, 2), (3, 2, 2), (3, 3, 1), (4, 2, 1)]
     for n, k1, k in hist:
         for branch in ("pre", "fn"):
             if n == 4 and branch == "fn":
@@ -42,7 +42,7 @@ def signature(prop, cfg, viol):
 
 
 def describe(v, tier):
-    v.bounds = dict(create_arcs="n<=3 with k<=4, n=4 with k=1 (quick) / n=4 with k<=5 (thorough); k>n-1 included",
+    v.bounds = dict(create_arcs="n<=3 with k<=4, n=4 with k=1 (quick) / n=4 with k<=4 (thorough); k>n-1 included; plus samples standing for permuted rows of a larger matrix",
                     history="create_arcs(k1); destroy_arcs(); create_arcs(k2) on n<=3 (quick) / n<=4 (thorough)",
                     calculate_pdf="n<=4, k<=2 (quick) / n<=5, k<=4 (thorough) from an injected arc state, symbolic density bound > 0",
                     eliminate_maxima_height="n<=3, symbolic height (both signs)")
